@@ -33,6 +33,42 @@ def _dir_table(chk, sq):
     raise AnalysisError("SquareLattice._dir assignment not found")
 
 
+def _eval_letter_test(test, subject, letter):
+    """evaluate a test on a one-letter boundary code (`subj in 'ip'`, `subj == 'i'`, not/and/or of these) -> True/False/None"""
+    if isinstance(test, ast.Compare) and len(test.ops) == 1 and A.text(test.left) == subject and isinstance(test.comparators[0], ast.Constant) \
+            and isinstance(test.comparators[0].value, str):
+        c = test.comparators[0].value
+        op = test.ops[0]
+        if isinstance(op, ast.In):
+            return letter in c
+        if isinstance(op, ast.NotIn):
+            return letter not in c
+        if isinstance(op, ast.Eq):
+            return letter == c
+        if isinstance(op, ast.NotEq):
+            return letter != c
+        return None
+    if isinstance(test, ast.Compare) and len(test.ops) == 1 and A.text(test.left) == subject and isinstance(test.comparators[0], (ast.Tuple, ast.List, ast.Set)):
+        try:
+            vals = [ast.literal_eval(e) for e in test.comparators[0].elts]
+        except Exception:
+            return None
+        if isinstance(test.ops[0], ast.In):
+            return letter in vals
+        if isinstance(test.ops[0], ast.NotIn):
+            return letter not in vals
+        return None
+    if isinstance(test, ast.UnaryOp) and isinstance(test.op, ast.Not):
+        v = _eval_letter_test(test.operand, subject, letter)
+        return None if v is None else not v
+    if isinstance(test, ast.BoolOp):
+        vs = [_eval_letter_test(v, subject, letter) for v in test.values]
+        if isinstance(test.op, ast.And):
+            return False if any(v is False for v in vs) else (True if all(v is True for v in vs) else None)
+        return True if any(v is True for v in vs) else (False if all(v is False for v in vs) else None)
+    return None
+
+
 def run(chk):
     prog = chk.prog
     chk.explanation = (
@@ -190,6 +226,13 @@ def run(chk):
     # (or, combined with the other coordinate, modulo a constant: checkerboard parity, sqrt3 x sqrt3 triangular cell);
     # an un-reduced coordinate is allowed only in the else-branch of a test on that axis' boundary type.
     PERIOD = {0: {"self.Nx", "self._dims[0]"}, 1: {"self.Ny", "self._dims[1]"}}
+    pd = [n for n in prog.module(GEO).tree.body if isinstance(n, ast.Assign) and A.text(n.targets[0]) == "_periodic_dict"]
+    chk.require(pd, "_periodic_dict table not found")
+    try:
+        ptab = ast.literal_eval(pd[0].value)
+    except Exception as e:
+        raise AnalysisError("_periodic_dict is not a literal table") from e
+    letters = {0: {v[0] for v in ptab.values()}, 1: {v[1] for v in ptab.values()}}
     for ci in [c for c in prog.all_classes() if c.module.name == GEO and (c is sq or sq in prog.class_mro(c))]:
         f = ci.methods.get("site2index")
         if f is None or f.cls is not ci:
@@ -216,13 +259,42 @@ def run(chk):
                         ok, why = False, f"site[{ax}] is reduced modulo `{mod}`, which is not the period of axis {ax}"
                     break
                 if isinstance(p, ast.IfExp) and cur is p.orelse and f"self._periodic[{ax}]" in A.text(p.test):
-                    ok = True          # open boundary along this axis: the raw coordinate is the index
+                    # the raw coordinate is the index only for an open boundary along this axis: evaluate the test for every
+                    # boundary letter that _periodic_dict can put on this axis
+                    wrong = [c for c in sorted(letters[ax]) if c != "o" and _eval_letter_test(p.test, f"self._periodic[{ax}]", c) is not True]
+                    undec = [c for c in sorted(letters[ax]) if _eval_letter_test(p.test, f"self._periodic[{ax}]", c) is None]
+                    if undec:
+                        raise AnalysisError(f"{ci.name}.site2index: cannot evaluate `{A.text(p.test)}` for boundary letter(s) {undec}")
+                    if wrong:
+                        ok, why = False, (f"site[{ax}] is not reduced modulo the period when the boundary letter of axis {ax} is "
+                                          f"{wrong} (periodic): `{A.text(p.test)}` sends it to the un-reduced branch")
+                    else:
+                        ok = True
                     break
                 cur = p
             if ok is None:
                 ok, why = False, f"site[{ax}] is used without reduction modulo the lattice period"
             chk.verdict("Q3", (f, u), f"{ci.name}.site2index: site[{ax}] in `{A.short(A.stmt_of(u, parent), 70)}`",
                         True if ok else False, f"{ci.name}.site2index: {why}: indexing is not invariant under the lattice periods")
+        # a linear index u * K + v built from two reduced coordinates is injective only if the stride K is the period of v
+        for add in [n for n in ast.walk(f.node) if isinstance(n, ast.BinOp) and isinstance(n.op, ast.Add)]:
+            def reduced(n):
+                if isinstance(n, ast.BinOp) and isinstance(n.op, ast.Mod) and isinstance(n.left, ast.Subscript) and A.text(n.left.value) == "site" \
+                        and isinstance(n.left.slice, ast.Constant):
+                    return n.left.slice.value, A.text(n.right)
+                return None
+            for big, small in ((add.left, add.right), (add.right, add.left)):
+                rs = reduced(small)
+                if rs is None or not (isinstance(big, ast.BinOp) and isinstance(big.op, ast.Mult)):
+                    continue
+                for u, K in ((big.left, big.right), (big.right, big.left)):
+                    ru = reduced(u)
+                    if ru is None:
+                        continue
+                    okk = A.text(K) in PERIOD[rs[0]] and rs[1] in PERIOD[rs[0]] and ru[0] != rs[0]
+                    chk.verdict("Q3", (f, add), f"{ci.name}.site2index: stride `{A.text(K)}` of `{A.short(add, 60)}`", True if okk else False,
+                                f"{ci.name}.site2index: the linear index `{A.short(add, 70)}` multiplies the reduced site[{ru[0]}] by `{A.text(K)}`, "
+                                f"which is not the period of site[{rs[0]}] (`{rs[1]}`): two different sites of a non-square cell share one index")
     # ---------------------------------------------------------------- Q4
     chk.rule("Q4", "inconsistent patterns and non-unique / missing assignments are rejected", floor=4)
     ru = prog.cls(GEO, "RectangularUnitcell")
@@ -259,6 +331,8 @@ def run(chk):
 MUTANTS = [
     ("dir table entry", "yastn/tn/fpeps/_geometry.py", "'tl': (-1, -1), 't': (-1, 0), 'tr': (-1,  1),", "'tl': (-1, -1), 't': (-1, 0), 'tr': (-1,  -1),", "Q1"),
     ("label rl for r", "yastn/tn/fpeps/_geometry.py", "            return 'lr'  # dirn", "            return 'rl'  # dirn", "Q2"),
+    ("cylinder row not reduced", "yastn/tn/fpeps/_geometry.py", "        x = site[0] % self._dims[0] if self._periodic[0] in 'ip' else site[0]", "        x = site[0] % self._dims[0] if self._periodic[0] == 'i' else site[0]", "Q3"),
+    ("wrong stride", "yastn/tn/fpeps/_geometry.py", "            return (site[0] % self.Nx) * self.Ny + site[1] % self.Ny", "            return (site[0] % self.Nx) * self.Nx + site[1] % self.Ny", "Q3"),
     ("setitem keyed by site", "yastn/tn/fpeps/_geometry.py", "            self._site_data[self.site2index(site)] = obj", "            self._site_data[site] = obj", "Q3"),
     ("pattern guard deleted", "yastn/tn/fpeps/_geometry.py",
      "        if any(len(set(envs)) > 1 for envs in label_envs.values()):\n            raise YastnError(\"RectangularUnitcell: each unique label should have the same neighbors.\")\n", "", "Q4"),
@@ -266,6 +340,8 @@ MUTANTS = [
     ("upper bound off by one", "yastn/tn/fpeps/_geometry.py", "if self._periodic[1] == 'o' and (y < 0 or y >= self._dims[1]):", "if self._periodic[1] == 'o' and (y < 0 or y > self._dims[1]):", "Q2"),
 ]
 BENIGN = [
+    ("boundary test as != 'o'", "yastn/tn/fpeps/_geometry.py", "        x = site[0] % self._dims[0] if self._periodic[0] in 'ip' else site[0]", "        x = site[0] % self._dims[0] if self._periodic[0] != 'o' else site[0]"),
+    ("column-major stride", "yastn/tn/fpeps/_geometry.py", "            return (site[0] % self.Nx) * self.Ny + site[1] % self.Ny", "            return site[0] % self.Nx + self.Nx * (site[1] % self.Ny)"),
     ("reorder dir literal", "yastn/tn/fpeps/_geometry.py", "        self._dir = {'tl': (-1, -1), 't': (-1, 0), 'tr': (-1,  1),\n                      'l': ( 0, -1),                'r': ( 0,  1),",
      "        self._dir = {'t': (-1, 0), 'tl': (-1, -1), 'tr': (-1,  1),\n                      'r': ( 0,  1),                'l': ( 0, -1),"),
 ]
